@@ -17,7 +17,7 @@
 #ifndef C12_READ_ENV_H
 #define C12_READ_ENV_H
 #include "C12/c12_env.h"
-#define C12_NOWHERE ((size_t)-1)
+#define C12_NOWHERE SIZE_MAX
 
 int g_fd;
 uint8_t *g_bufbase;  /* file->buffer */
